@@ -299,6 +299,70 @@ fn key_source_family(rep: &Report) -> Census {
             }
         }
     }
+    // several asset entries for ONE key source with different leaf permissions: the key signs a leaf
+    // iff SOME entry permits that leaf
+    {
+        use miniscript::plan::{CanSign, TaprootAvailableLeaves, TaprootCanSign};
+        let kk = crate::keys::key("K1");
+        let kj = crate::keys::key("K2");
+        let dtext = format!("tr({},{{pk([{}/7]{}),pk([{}/7]{})}})", internal, kk.fingerprint, hex(&kk.x32()), kj.fingerprint, hex(&kj.x32()));
+        if let Ok(desc) = Descriptor::<DefiniteDescriptorKey>::from_str(&dtext) {
+            let tr = match &desc {
+                Descriptor::Tr(t) => t.clone(),
+                _ => unreachable!(),
+            };
+            let hs: Vec<bitcoin::taproot::TapLeafHash> = tr.leaves().map(|l| l.compute_tap_leaf_hash()).collect();
+            let (h1, h2) = (hs[0], hs[1]);
+            use bitcoin::hashes::Hash;
+            let hx = bitcoin::taproot::TapLeafHash::from_byte_array([0u8; 32]);
+            let hy = bitcoin::taproot::TapLeafHash::from_byte_array([0xffu8; 32]);
+            let src = (kk.fingerprint, DerivationPath::from(vec![ChildNumber::from_normal_idx(7).unwrap()]));
+            let single = |h| TaprootAvailableLeaves::Single(h);
+            let many = |v: Vec<bitcoin::taproot::TapLeafHash>| TaprootAvailableLeaves::Many(v.into_iter().collect());
+            let sets: Vec<(&str, Vec<TaprootAvailableLeaves>, bool)> = vec![
+                ("own-leaf", vec![single(h1)], true),
+                ("other-leaf", vec![single(h2)], false),
+                ("low-unrelated+own", vec![single(hx), single(h1)], true),
+                ("high-unrelated+own", vec![single(hy), single(h1)], true),
+                ("none+own", vec![TaprootAvailableLeaves::None, single(h1)], true),
+                ("other+own", vec![single(h2), single(h1)], true),
+                ("many-unrelated", vec![many(vec![hx, hy])], false),
+                ("many-with-own", vec![many(vec![hx, h1])], true),
+                ("many-unrelated+own", vec![many(vec![hx, hy]), single(h1)], true),
+                ("none", vec![TaprootAvailableLeaves::None], false),
+                ("any", vec![TaprootAvailableLeaves::Any], true),
+            ];
+            for (name, leaves, expect) in sets {
+                for sighash_default in [true, false] {
+                    let mut assets = Assets::new();
+                    for l in &leaves {
+                        assets.keys.insert((src.clone(), CanSign { ecdsa: true, taproot: TaprootCanSign { key_spend: false, script_spend: l.clone(), sighash_default } }));
+                    }
+                    for mall in [false, true] {
+                        bump(&mut cen, "keysource_evaluations");
+                        let got = guard(|| if mall { desc.clone().plan_mall(&assets).is_ok() } else { desc.clone().plan(&assets).is_ok() });
+                        match got {
+                            Ok(g) if g == expect => bump(&mut cen, if g { "keysource_plan_as_expected" } else { "keysource_no_plan_as_expected" }),
+                            Ok(g) => rep.violation(Violation {
+                                key: format!("C17|leaf-permissions|{}|{}|{}", name, sighash_default, mall),
+                                class: format!("leaf-permissions-{}", if g { "plan-without-permission" } else { "no-plan-with-permission" }),
+                                what: format!("asset entries {:?} for one key: plan{}() {} but the key {} sign its leaf", leaves, if mall { "_mall" } else { "" }, if g { "succeeds" } else { "fails" }, if expect { "may" } else { "may not" }),
+                                case: json!({"descriptor": dtext, "entries": name}),
+                            }),
+                            Err(pn) => rep.violation(Violation {
+                                key: format!("C17|leaf-permissions-panic|{}", panic_site(&pn)),
+                                class: format!("planner-panic@{}", panic_site(&pn)),
+                                what: pn,
+                                case: json!({"descriptor": dtext, "entries": name}),
+                            }),
+                        }
+                    }
+                }
+            }
+        } else {
+            bump(&mut cen, "keysource_descriptor_refused");
+        }
+    }
     cen
 }
 
